@@ -468,6 +468,8 @@ def rule_findchunk(ctx, rep):
 
 META["explanation"] += " " + "Also (round 10): in-place growth records the grown chunk's capacity, matching the bytes appended."
 
+META["explanation"] += " " + 'Also (rounds 11-12): free-slot search covers 0..capacity-1, plain list.h traversal macros and cds_list_add_tail (witness/list.c).'
+
 RULES = [
     ("C15.listops", rule_listops),
     ("C15.bpowner", rule_bp_owner),
